@@ -26,6 +26,7 @@ import (
 	"github.com/yandex/pandora/core"
 	"github.com/yandex/pandora/core/config"
 	coreimport "github.com/yandex/pandora/core/import"
+	"gopkg.in/yaml.v2"
 )
 
 // more tokens than this are not drained: observation TOOMANY (the Lean driver accepts that only when the profile
@@ -235,6 +236,26 @@ func c01Exhaustive() []string {
 	return out
 }
 
+// c01Dims adds the dimensions that are independent of the profile's numbers: how the duration and the numbers are
+// written in the config (dsp, enc), whether the schedule is told its start or takes it at the first Next()
+// (start=implicit; leaf profiles only: the level slots of a step profile are counted from the known start), and whether one
+// or several consumers drain it (conc).
+func c01Dims(r *rand.Rand, s string) string {
+	if r.Intn(2) == 0 {
+		s += " dsp=" + []string{"str", "sec", "ms", "us", "min", "str", "sec"}[r.Intn(7)]
+	}
+	if r.Intn(20) < 9 {
+		s += " enc=" + []string{"int", "yaml", "list", "yamllist", "yaml"}[r.Intn(5)]
+	}
+	switch x := r.Intn(100); {
+	case x < 6 && !strings.HasPrefix(s, "kind=step"):
+		s += " start=implicit"
+	case x < 14:
+		s += fmt.Sprintf(" conc=%d", 2+r.Intn(7))
+	}
+	return s
+}
+
 func c01Gen(r *rand.Rand, tier string) []string {
 	n, nIll, nBorder := 4500, 1500, 200
 	budget := 300000.0
@@ -250,7 +271,22 @@ func c01Gen(r *rand.Rand, tier string) []string {
 		}
 		out = append(out, constIn(7, d), stepIn(1, 10, 3, d))
 	}
-	out = append(out, c01Borders(r, nBorder)...)
+	// the same fixed profiles once more in every notation / start mode / consumer count
+	for i, base := range append([]string(nil), out...) {
+		out = append(out, base+" dsp="+[]string{"str", "sec", "ms", "us"}[i%4]+" enc="+[]string{"yaml", "list", "int", "yamllist"}[(i/4)%4])
+		if !strings.HasPrefix(base, "kind=step") && i%3 == 0 {
+			out = append(out, base+" start=implicit")
+		}
+		if i%3 == 1 {
+			out = append(out, base+fmt.Sprintf(" conc=%d", 2+i%5))
+		}
+	}
+	for _, b := range c01Borders(r, nBorder) {
+		if r.Intn(2) == 0 {
+			b = c01Dims(r, b)
+		}
+		out = append(out, b)
+	}
 	if tier == "thorough" {
 		out = append(out, c01Exhaustive()...)
 		// a few profiles near and beyond the token cap
@@ -259,9 +295,9 @@ func c01Gen(r *rand.Rand, tier string) []string {
 	}
 	withT0 := func(s string) string {
 		if r.Intn(3) == 0 {
-			return s + fmt.Sprintf(" t0=%d", r.Int63n(4_000_000_000_000_000_000))
+			s += fmt.Sprintf(" t0=%d", r.Int63n(4_000_000_000_000_000_000))
 		}
-		return s
+		return c01Dims(r, s)
 	}
 	// ill-conditioned lines
 	for i := 0; i < nIll; i++ {
@@ -324,7 +360,100 @@ func c01Gen(r *rand.Rand, tier string) []string {
 
 var importOnce sync.Once
 
+// c01DurSpelling writes a duration the way a person would in a config file. dsp: ns (default) | str (time.Duration's
+// own notation, 1m30.5s) | sec (decimal seconds, 1.5s) | ms | us | min (decimal minutes). Every spelling is checked to
+// parse back to exactly d with time.ParseDuration; otherwise the ns spelling is used.
+func c01DurSpelling(d int64, dsp string) string {
+	ns := fmt.Sprintf("%dns", d)
+	if d <= 0 {
+		return ns
+	}
+	frac := func(unit int64, digits int, suffix string) string {
+		s := fmt.Sprintf("%d.%0*d", d/unit, digits, d%unit)
+		s = strings.TrimRight(s, "0")
+		s = strings.TrimSuffix(s, ".")
+		return s + suffix
+	}
+	out := ns
+	switch dsp {
+	case "str":
+		out = time.Duration(d).String()
+	case "sec":
+		out = frac(1e9, 9, "s")
+	case "ms":
+		out = frac(1e6, 6, "ms")
+	case "us":
+		out = frac(1e3, 3, "us")
+	case "min":
+		if d%6 == 0 { // d/6e10 min has a finite decimal expansion (10 digits) exactly then
+			out = strings.TrimRight(fmt.Sprintf("%d.%010d", d/6e10, (d%6e10)/6), "0")
+			out = strings.TrimSuffix(out, ".") + "m"
+		}
+	}
+	if back, err := time.ParseDuration(out); err != nil || int64(back) != d {
+		return ns
+	}
+	return out
+}
+
+// a float64 the way it is written in YAML; ok=false when the text would not be read back as the same number
+func c01YAMLNum(f float64) (string, bool) {
+	if math.IsInf(f, 0) || math.IsNaN(f) {
+		return "", false
+	}
+	s := strconv.FormatFloat(f, 'g', -1, 64)
+	if f == math.Trunc(f) && math.Abs(f) < 1e15 {
+		s = strconv.FormatFloat(f, 'f', -1, 64) // 10000, not 1e+04
+	}
+	return s, true
+}
+
+// YAML maps come back as map[interface{}]interface{}; the config decoder wants string keys (viper does the same)
+func c01StrKeys(v interface{}) interface{} {
+	switch x := v.(type) {
+	case map[string]interface{}:
+		out := map[string]interface{}{}
+		for k, e := range x {
+			out[strings.ToLower(k)] = c01StrKeys(e)
+		}
+		return out
+	case map[interface{}]interface{}:
+		out := map[string]interface{}{}
+		for k, e := range x {
+			out[strings.ToLower(fmt.Sprint(k))] = c01StrKeys(e)
+		}
+		return out
+	case []interface{}:
+		out := make([]interface{}, len(x))
+		for i, e := range x {
+			out[i] = c01StrKeys(e)
+		}
+		return out
+	}
+	return v
+}
+
+func c01SameNum(v interface{}, want float64) bool {
+	switch x := v.(type) {
+	case float64:
+		return x == want
+	case int:
+		return float64(x) == want
+	case int64:
+		return float64(x) == want
+	case uint64:
+		return float64(x) == want
+	}
+	return false
+}
+
 // c01Decode builds the schedule the way a config file section does. ok=false: the configuration was rejected.
+//
+//	enc=map (default)  the section as a Go map with float64 rates (what a JSON config gives)
+//	enc=int            whole rates as Go ints (what `ops: 10` gives in YAML)
+//	enc=yaml           YAML text (numbers and durations as written by hand) parsed into the settings map, keys folded like viper does
+//	enc=list           `rps: [section]`: the usual list notation, through the slice -> composite hook and NewComposite
+//	enc=yamllist       both
 func c01Decode(m map[string]string) (s core.Schedule, ok bool) {
 	importOnce.Do(func() { coreimport.Import(afero.NewMemMapFs()) })
 	atoi := func(k string) int64 {
@@ -334,26 +463,103 @@ func c01Decode(m map[string]string) (s core.Schedule, ok bool) {
 		}
 		return v
 	}
-	sec := map[string]interface{}{"type": m["kind"]}
+	enc := m["enc"]
+	type kvT struct {
+		k string
+		f float64 // rate
+		i int64   // integer option
+		isRate bool
+	}
+	var fields []kvT
 	switch m["kind"] {
 	case "const":
-		sec["ops"] = parseRat(m["ops"])
+		fields = []kvT{{k: "ops", f: parseRat(m["ops"]), isRate: true}}
 	case "line":
-		sec["from"], sec["to"] = parseRat(m["from"]), parseRat(m["to"])
+		fields = []kvT{{k: "from", f: parseRat(m["from"]), isRate: true}, {k: "to", f: parseRat(m["to"]), isRate: true}}
 	case "step":
-		sec["from"], sec["to"], sec["step"] = parseRat(m["from"]), parseRat(m["to"]), atoi("step")
+		fields = []kvT{{k: "from", f: parseRat(m["from"]), isRate: true}, {k: "to", f: parseRat(m["to"]), isRate: true}, {k: "step", i: atoi("step")}}
 	case "once":
-		sec["times"] = atoi("times")
+		fields = []kvT{{k: "times", i: atoi("times")}}
 	default:
 		panic("kind")
 	}
+	dur := ""
 	if m["kind"] != "once" {
-		sec["duration"] = fmt.Sprintf("%dns", atoi("dur")) // a string, as in a YAML file
+		dur = c01DurSpelling(atoi("dur"), m["dsp"]) // a string, as in a YAML file
+	}
+	var root map[string]interface{}
+	if enc == "yaml" || enc == "yamllist" {
+		ind, first := "  ", "  "
+		if enc == "yamllist" {
+			ind, first = "    ", "  - "
+		}
+		var sb strings.Builder
+		sb.WriteString("rps:\n" + first + "type: " + m["kind"] + "\n")
+		okText := true
+		if dur != "" {
+			sb.WriteString(ind + "duration: " + dur + "\n")
+		}
+		for _, f := range fields {
+			if f.isRate {
+				t, ok := c01YAMLNum(f.f)
+				okText = okText && ok
+				sb.WriteString(ind + f.k + ": " + t + "\n")
+			} else {
+				sb.WriteString(ind + f.k + ": " + strconv.FormatInt(f.i, 10) + "\n")
+			}
+		}
+		if okText {
+			var raw map[string]interface{}
+			if err := yaml.Unmarshal([]byte(sb.String()), &raw); err != nil {
+				panic("yaml text of the harness is not readable: " + err.Error())
+			}
+			all, _ := c01StrKeys(raw).(map[string]interface{})
+			// the YAML reader is not under test here: fall back to the map when a number did not survive the text form
+			var sec map[string]interface{}
+			switch x := all["rps"].(type) {
+			case map[string]interface{}:
+				sec = x
+			case []interface{}:
+				if len(x) == 1 {
+					sec, _ = x[0].(map[string]interface{})
+				}
+			}
+			same := sec != nil
+			for _, f := range fields {
+				if same && f.isRate && !c01SameNum(sec[f.k], f.f) {
+					same = false
+				}
+			}
+			if same {
+				root = all
+			}
+		}
+	}
+	if root == nil {
+		sec := map[string]interface{}{"type": m["kind"]}
+		for _, f := range fields {
+			switch {
+			case !f.isRate:
+				sec[f.k] = f.i
+			case enc == "int" && f.f == math.Trunc(f.f) && math.Abs(f.f) < 1e15:
+				sec[f.k] = int(f.f)
+			default:
+				sec[f.k] = f.f
+			}
+		}
+		if dur != "" {
+			sec["duration"] = dur
+		}
+		if enc == "list" || enc == "yamllist" {
+			root = map[string]interface{}{"rps": []interface{}{sec}}
+		} else {
+			root = map[string]interface{}{"rps": sec}
+		}
 	}
 	var conf struct {
 		RPS core.Schedule `config:"rps"`
 	}
-	if err := config.DecodeAndValidate(map[string]interface{}{"rps": sec}, &conf); err != nil {
+	if err := config.DecodeAndValidate(root, &conf); err != nil {
 		return nil, false
 	}
 	if conf.RPS == nil {
@@ -377,33 +583,115 @@ func c01Run(input string) string {
 		}
 		t0 = time.Unix(0, ns)
 	}
-	s.Start(t0)
+	// start=implicit: the schedule is never told its start; the first Next() takes time.Now() as the profile's start.
+	// Offsets are then reported relative to a clock reading taken just before that call, together with the width of the
+	// bracket [before, after] around it: the Spec places the start inside the bracket.
+	implicit := m["start"] == "implicit"
+	slack := int64(-1)
+	if !implicit {
+		s.Start(t0)
+	}
 	var toks []int64
 	mono := true
-	var tmin, tmax int64 = math.MaxInt64, math.MinInt64
 	var fin int64
-	for {
-		tx, ok := s.Next()
-		off := int64(tx.Sub(t0))
-		if !ok {
-			fin = off
-			break
+	stable := true
+	conc, _ := strconv.Atoi(m["conc"])
+	if conc > 1 && !implicit {
+		// conc=N: N consumers drain the schedule at the same time (the way the instances of a pool share one rps schedule);
+		// every consumer stops at its first ok=false. The handed-out instants are merged and sorted.
+		type res struct {
+			toks []int64
+			fin  int64
+			mono bool
+			over bool
 		}
-		if len(toks) > 0 && off < toks[len(toks)-1] {
-			mono = false
+		out := make([]res, conc)
+		var total int64
+		var mu sync.Mutex
+		var wg sync.WaitGroup
+		for g := 0; g < conc; g++ {
+			wg.Add(1)
+			go func(g int) {
+				defer wg.Done()
+				r := res{mono: true}
+				for {
+					tx, ok := s.Next()
+					off := int64(tx.Sub(t0))
+					if !ok {
+						r.fin = off
+						break
+					}
+					if len(r.toks) > 0 && off < r.toks[len(r.toks)-1] {
+						r.mono = false
+					}
+					r.toks = append(r.toks, off)
+					if len(r.toks)%4096 == 0 {
+						mu.Lock()
+						total += 4096
+						over := total > capTokens
+						mu.Unlock()
+						if over {
+							r.over = true
+							break
+						}
+					}
+				}
+				out[g] = r
+			}(g)
 		}
+		wg.Wait()
+		for g, r := range out {
+			if r.over {
+				return "TOOMANY"
+			}
+			toks = append(toks, r.toks...)
+			mono = mono && r.mono
+			if g == 0 {
+				fin = r.fin
+			} else if r.fin != fin {
+				stable = false
+			}
+		}
+		sort.Slice(toks, func(i, j int) bool { return toks[i] < toks[j] })
+		if len(toks) > capTokens {
+			return "TOOMANY"
+		}
+	} else {
+		first := true
+		for {
+			var before time.Time
+			if implicit && first {
+				before = time.Now()
+				t0 = before
+			}
+			tx, ok := s.Next()
+			if implicit && first {
+				slack = int64(time.Since(before))
+				first = false
+			}
+			off := int64(tx.Sub(t0))
+			if !ok {
+				fin = off
+				break
+			}
+			if len(toks) > 0 && off < toks[len(toks)-1] {
+				mono = false
+			}
+			toks = append(toks, off)
+			if len(toks) > capTokens {
+				return "TOOMANY"
+			}
+		}
+	}
+	var tmin, tmax int64 = math.MaxInt64, math.MinInt64
+	for _, off := range toks {
 		if off < tmin {
 			tmin = off
 		}
 		if off > tmax {
 			tmax = off
 		}
-		toks = append(toks, off)
-		if len(toks) > capTokens {
-			return "TOOMANY"
-		}
 	}
-	stable := true
 	for i := 0; i < 3; i++ {
 		tx, ok := s.Next()
 		if ok || int64(tx.Sub(t0)) != fin {
@@ -509,7 +797,11 @@ func c01Run(input string) string {
 		}
 		return 0
 	}
-	return fmt.Sprintf("left0=%d n=%d fin=%d finstable=%d mono=%d tmin=%d tmax=%d%s toks=%s", left0, n, fin, b(stable), b(mono), tmin, tmax, parts, sb.String())
+	sl := ""
+	if implicit {
+		sl = fmt.Sprintf(" slack=%d", slack)
+	}
+	return fmt.Sprintf("left0=%d n=%d fin=%d finstable=%d mono=%d tmin=%d tmax=%d%s%s toks=%s", left0, n, fin, b(stable), b(mono), tmin, tmax, sl, parts, sb.String())
 }
 
 func c01Class(in, obs string) string {
@@ -542,6 +834,14 @@ func c01Class(in, obs string) string {
 			c += "/decreasing"
 		}
 	}
+	switch {
+	case m["start"] == "implicit":
+		c += "+implicit-start"
+	case m["conc"] != "":
+		c += "+concurrent"
+	case m["enc"] == "yaml" || m["enc"] == "yamllist":
+		c += "+yaml"
+	}
 	return c
 }
 
@@ -557,6 +857,8 @@ func main() {
 			"const/line/step/once; durations 1 ms, odd ns counts, k*100 ms, whole seconds, minutes, hours; rates 0, tiny, decimals, integers, adjacent floats, " +
 			"as large as the token budget allows; a stream of ill-conditioned lines (ends 1..1000 ulps apart, relative slope down to 1e-15, one end (nearly) zero); " +
 			"a stream at and beyond the validation border (negative rates, durations < 1 ms, step/times < 1); fixed enumeration of fractional-second lines; " +
+			"independently of the numbers: the duration written as ns / 1m30.5s / decimal seconds / ms / us / minutes, the section as a Go map, with int rates, as YAML text, " +
+			"as a one-element rps list (slice -> composite hook); 6 % of the leaf profiles are never Start()ed (the first Next() is the start), 8 % are drained by 2..8 concurrent consumers; " +
 			"thorough adds the full grid of 11 rates x 11 rates x 11 durations and small step grids. non-trivial = at least one token emitted or a rejected configuration; distinct = distinct input line",
 	})
 }
